@@ -7,7 +7,7 @@
 //@end
 //@fn file=src/solver/core/cones/nonsymmetric_common.rs in="Nonsymmetric3DConeUtils<T> for C" name=use_primal_dual_scaling rules=R1,R2,tupidx
 //@contract
-    requires s@.len() == 3, z@.len() == 3,
+    requires s@.len() == 3, z@.len() == 3, old(self).primal_pre(s@),
     ensures final(self).H_dual == old(self).H_dual, final(self).grad == old(self).grad, final(self).z == old(self).z, final(self).params_eq(*old(self)),
         pd_scaled(final(self).Hs.data@, old(self).H_dual.data@, old(self).grad@, old(self).gradient_primal_spec(s@), s@, z@),
 //@pre
@@ -87,7 +87,7 @@
 //@end
 //@fn file=src/solver/core/cones/nonsymmetric_common.rs in="Nonsymmetric3DConeUtils<T> for C" name=update_Hs rules=R1,R2
 //@contract
-    requires s@.len() == 3, z@.len() == 3,
+    requires s@.len() == 3, z@.len() == 3, scaling_strategy != ScalingStrategy::Dual ==> old(self).primal_pre(s@),
     ensures final(self).H_dual == old(self).H_dual, final(self).grad == old(self).grad, final(self).z == old(self).z, final(self).params_eq(*old(self)),
         // "Dual scaling: Hs = mu*H" with the mu handed in; any other strategy: the primal-dual update (with its own fallback)
         scaling_strategy == ScalingStrategy::Dual ==> dual_scaled(final(self).Hs.data@, old(self).H_dual.data@, mu),
